@@ -234,7 +234,7 @@ def gen_paths(tier, rng):
     for n in range(0, maxlen + 1):
         for t in itertools.product(CMDS, repeat=n):
             seqs.append("".join(t))
-    extra = 2500 if tier == "quick" else 8000
+    extra = 2500 if tier == "quick" else 30000
     for _ in range(extra):
         n = rng.choice([3, 4, 4, 5, 8, 12]) if tier == "quick" else rng.choice([4, 4, 4, 5, 6, 9, 12])
         seqs.append("".join(rng.choice(CMDS) for _ in range(n)))
@@ -270,7 +270,7 @@ def run(out, tier):
                 recs.append(round_trace(rng, n))
         recs += shape_traces()
         slim = [{k: v for k, v in r.items() if k != "d"} for r in recs]
-        verdicts, st, tr = common.validate_traces("TracePath", "TracePath.cfg", slim, wd, chunk=100000)
+        verdicts, st, tr = common.validate_traces("TracePath", "TracePath.cfg", slim, wd, chunk=20000)
         cov = out.coverage
         cov["states"] += st
         cov["transitions"] += tr
